@@ -203,7 +203,7 @@ func (b bset) inter(o bset) bset {
 	return bset{b[0] & o[0], b[1] & o[1], b[2] & o[2], b[3] & o[3]}
 }
 func (b bset) complement() bset { return bset{^b[0], ^b[1], ^b[2], ^b[3]} }
-func fullBset() bset { return bset{^uint64(0), ^uint64(0), ^uint64(0), ^uint64(0)} }
+func fullBset() bset            { return bset{^uint64(0), ^uint64(0), ^uint64(0), ^uint64(0)} }
 
 type bfact struct {
 	g   atomID // 0: unconditional; else the fact holds when the boolean value g is gp
